@@ -220,6 +220,28 @@ def r6_abort(run, F):
            "without a penne diagnostic")
 
 
+def r10b_default_diagnostic_handler(run, F):
+    """While the status of a link step is discarded anywhere, the only thing that keeps a failed link from passing for a
+    success is LLVM's *default* diagnostic handler, which ends the process on an error.  Installing a handler of one's own
+    (LLVMContextSetDiagnosticHandler) turns every unchecked LLVMLinkModules2 into a silently lost module: no handler may be
+    installed unless every link result in the generator is checked."""
+    unchecked, handlers = [], []
+    for p, b in sorted(F.lib.bodies.items()):
+        if "hir" not in b or not F.rel(b["file"]).endswith("alpha/generator.rs"):
+            continue
+        for n in walk(b["hir"]):
+            if n.get("k") == "Let" and n["pat"].get("k") == "Wild" and any((hirq.callee(c) or "").endswith("LLVMLinkModules2") for c in hirq.calls(n.get("init", {}))):
+                unchecked.append(F.where(b, n))
+            if n.get("k") in ("Semi", "Expr") and isinstance(n.get("e"), dict) and (hirq.callee(hirq.unwrap_trivial(n["e"])) or "").endswith("LLVMLinkModules2"):
+                unchecked.append(F.where(b, n))
+        for c in hirq.calls(b["hir"]):
+            if (hirq.callee(c) or "").endswith("SetDiagnosticHandler"):
+                handlers.append(F.where(b, c))
+    run.ob("R10-LINK-RESULT-CHECKED", "default diagnostic handler", not (handlers and unchecked), handlers[0] if handlers else "src/alpha/generator.rs",
+           "a diagnostic handler is installed (%s) while %d link result(s) are discarded (%s): a link error no longer ends the process and the "
+           "module being linked in is dropped without a diagnostic" % (handlers, len(unchecked), unchecked))
+
+
 def r7_args_covered(run, F):
     ex = F.body("alpha::parser::{Token}::expectation")
     m = hirq.find_match(ex, min_arms=5)
@@ -571,7 +593,11 @@ def check(run):
     # diagnostics planted in the later parts of a statement only surface if the resolver merges the errors of all parts (shared with C06.R7)
     from props import c06 as _c06
     _c06.r7_errors_merged(run, F)
+    _c06.r8_combiners_keep_both(run, F)
     r14_location_guarded(run, F)
+    # later stages assert well-formed types instead of diagnosing them: every type position must parse through the check (C11.R7)
+    from props import c11 as _c11
+    _c11.r7_wellformed_at_every_position(run, F)
     r12_linear_traversal(run, F)
     r13_poison_dropped(run, F)
     # builtins are expanded after typing and never re-checked: a literal whose type differs from the announced one aborts
@@ -584,6 +610,7 @@ def check(run):
     c03.r1_reset(run, F)
     r5_poisoned(run, F)
     r6_abort(run, F)
+    r10b_default_diagnostic_handler(run, F)
     r7_args_covered(run, F)
     r8_cited_invariants(run, F)
     r9_resolve_before_fail(run, F)
